@@ -123,9 +123,7 @@ theorem vEnumLit_spec (vals v) : Sp (pyMem v vals) v (vEnumLit vals v) := Sp.ite
 
 theorem vEnumCls_spec (cls names v) : Sp (aEnumCls cls names v) (nEnumCls cls v) (vEnumCls cls names v) := by
   unfold aEnumCls vEnumCls nEnumCls
-  cases v <;> first | exact Sp.ite _ _ | exact Sp.typeErr _ | exact Sp.valueErr _ | skip
-  rename_i fr xs
-  cases fr <;> first | exact Sp.typeErr _ | exact Sp.valueErr _
+  cases v <;> first | exact Sp.ite _ _ | exact Sp.typeErr _ | exact Sp.valueErr _
 
 theorem vSeq_spec (k sz pre) {g : List PyVal → R (List PyVal)} {a n}
     (hg : ∀ xs, Sp (a xs) (n xs) (g xs)) (v) :
